@@ -150,6 +150,8 @@ void cpputest_malloc_set_out_of_memory()
 void cpputest_malloc_set_not_out_of_memory()
 {
     malloc_out_of_memory_counter = NO_COUNTDOWN;
+    if (originalAllocator == NULLPTR)
+        return; /* the simulation has not replaced the allocator (yet): there is nothing to put back */
     setCurrentMallocAllocator(originalAllocator);
     originalAllocator = NULLPTR;
 }
